@@ -391,11 +391,29 @@ theorem msm_accumulate_with_r_eval (fb : String → G) (a b : Msm F G) (r : F) (
     (a.accumulateWithR b r).eval fb = a.eval fb + r • b.eval fb :=
   eval_accumulateWithR fb a b r ha
 
+omit [AddCommGroup G] [Module F G] [AddCommGroup H] [Module F H] in
+/-- The accumulation step computed off-circuit (`Msm::accumulate_with_r`: append, `* r`,
+`entry(..).and_modify(+= r·v).or_insert(r·v)`) and in-circuit (`AssignedMsm::accumulate_with_r`:
+`scale` then `add_msm`), and therefore `Accumulator::accumulate` and
+`AssignedAccumulator::accumulate` given the same hash output, produce the same MSMs — same
+bases, same scalars in the same order, same fixed-base map.
+Partial with respect to DESIGN §7 `in_circuit_acc_eq_off_circuit`: only the accumulation layer is
+modelled; that `VerifierGadget::prepare` computes the same accumulator as `plonk::prepare` on
+every proof is established by the correspondence check (MockProver with the off-circuit
+accumulator as instance), not by a theorem. -/
+theorem in_circuit_acc_eq_off_circuit_partial (accs : List (Acc F G)) (r : F) :
+    Acc.accumulate accs r = Acc.accumulateIn accs r ∧
+      ∀ (a b : Msm F G), a.accumulateWithROff b r = a.accumulateWithR b r := by
+  refine ⟨?_, fun a b => accumulateWithROff_eq a b r⟩
+  cases accs with
+  | nil => rfl
+  | cons a t => simp [Acc.accumulate, Acc.accumulateIn, accumulateLoop_eq]
+
 /-- `Msm::collapse` / `AssignedMsm::collapse` does not change the value. -/
 theorem msm_collapse_eval (fb : String → G) (m : Msm F G) : m.collapse.eval fb = m.eval fb :=
   eval_collapse fb m
 
-example : (Msm.accumulateWithR (F := ℤ) (G := ℤ) ⟨[5], [2], [("a", 1)]⟩ ⟨[7], [3], [("a", 4), ("b", 1)]⟩ 10).fixed
+example : (Msm.accumulateWithROff (F := ℤ) (G := ℤ) ⟨[5], [2], [("a", 1)]⟩ ⟨[7], [3], [("a", 4), ("b", 1)]⟩ 10).fixed
     = [("a", 41), ("b", 10)] := by decide
 
 /-- `Accumulator::accumulate` preserves validity: if every accumulator satisfies the invariant
